@@ -65,12 +65,13 @@ ValEq(a, b) ==
 
 \* an observed value (obs = [t, v, d] with d in JSON form, or the JSON null for None) against the admissible set
 ObsValue(o) == IF o.t = "num" THEN VNum(o.v, DFromJson(o.d)) ELSE VFloat(DFromJson(o.d), FALSE)
-Admissible(db, n, val) == \E r \in Readings(db, n) : ValEq(Den(db, r), val)
+AdmissibleIn(db, R, val) == \E r \in R : ValEq(Den(db, r), val)
+Admissible(db, n, val) == AdmissibleIn(db, Readings(db, n), val)
 
 \* Canon law: canonicalising never changes the denotation.  Asserted only when canonicalize returned Some(c)
 \* and the name denotes something; canonicalize(name) = None asserts nothing.
-CanonOK(db, n, c) ==
-  Readings(db, n) = {} \/ \E r1 \in Readings(db, n), r2 \in Readings(db, c) : ValEq(Den(db, r1), Den(db, r2))
+CanonOKIn(db, Rn, Rc) == Rn = {} \/ \E r1 \in Rn, r2 \in Rc : ValEq(Den(db, r1), Den(db, r2))
+CanonOK(db, n, c) == CanonOKIn(db, Readings(db, n), Readings(db, c))
 
 -----------------------------------------------------------------------------
 (* Theorems, checked by TLC on a small universe (MC_Names) *)
